@@ -1618,6 +1618,13 @@ func (p *Parser) parseAsyncExpression(prec OpPrec, async []byte) IExpr {
 	// IdentifierReference, AsyncFunctionExpression, AsyncGeneratorExpression
 	// CoverCallExpressionAndAsyncArrowHead, AsyncArrowFunction
 	// assume we're at a token after async
+	p.exprLevel++
+	if NestedExprLimit < p.exprLevel {
+		p.failMessage("too many nested expressions")
+		return nil
+	}
+	defer func() { p.exprLevel-- }()
+
 	var left IExpr
 	precLeft := OpPrimary
 	if !p.prevLT && p.tt == FunctionToken {
